@@ -48,6 +48,7 @@ type ServerInst struct {
 // World is everything that exists in one simulated run.
 type World struct {
 	Case      *Case
+	c09Expect map[string][]byte // C09: final path -> the bytes it must hold the instant it appears
 	Sim       *simrt.Sim
 	Net       *simnet.Net
 	Rng       *rand.Rand // scenario-time choices (deterministic, drawn only by threads under the token or before Run)
